@@ -121,47 +121,30 @@ theorem send_size (v : Nat) (p : Send) (b : Bytes) (h : encSend v p = .ok b) : b
 theorem sendack_body (v : Nat) (hh : Flags) (p : Sendack) (hf : FieldsOk v (.sendack hh p)) :
     ∃ body, encSendack v p = .ok body ∧ body.length = sizeSendack v p ∧
       decSendack v hh body = some (.sendack hh p) := by
+  obtain ⟨mid, cseq, mseq, rc, no⟩ := p
   simp only [FieldsOk, u8, u32, u64, strOk, maxInt16] at hf
   obtain ⟨h1, h2, h3, h4, h5⟩ := hf
-  have hseq := wSeq_ok v p.messageSeq h3
-  unfold seqOk u32 u64 at h3
-  by_cases hv : v ≤ legacyMessageSeqVersion
-  · simp only [hv, if_true] at hseq h3
-    cases hp : p.clientMsgNo with
-    | nil =>
-      refine ⟨encU64 p.messageID ++ (encU32 p.clientSeq ++ (encU32 p.messageSeq ++ encU8 p.reasonCode)), ?_, ?_, ?_⟩
-      · simp [encSendack, hseq, hp]
-      · simp [sizeSendack, seqSize, hv, hp]
-      · have : p = { p with clientMsgNo := [] } := by cases p; simp_all
-        rw [this]
-        simp [decSendack, sendackBody, sendackCoreFirst, getSeq, hv, getU64_enc, getU32_enc, getU8_enc0, *]
-    | cons c cs =>
-      have hlen : (c :: cs).length ≤ 32767 := by rw [← hp]; exact h5
-      refine ⟨encU64 p.messageID ++ (encU32 p.clientSeq ++ (encU32 p.messageSeq ++ (encU8 p.reasonCode ++ encStr (c :: cs)))), ?_, ?_, ?_⟩
-      · simp [encSendack, hseq, hp, wStr_ok, hlen]
-      · simp [sizeSendack, seqSize, hv, hp]
-      · have : p = { p with clientMsgNo := c :: cs } := by cases p; simp_all
-        rw [this]
-        simp [decSendack, sendackBody, sendackCoreFirst, getSeq, hv, getU64_enc, getU32_enc, getU8_enc,
-          getStr_enc0, hlen, *]
-  · simp only [hv, if_false] at hseq h3
-    cases hp : p.clientMsgNo with
-    | nil =>
-      refine ⟨encU64 p.messageID ++ (encU32 p.clientSeq ++ (encU64 p.messageSeq ++ encU8 p.reasonCode)), ?_, ?_, ?_⟩
-      · simp [encSendack, hseq, hp]
-      · simp [sizeSendack, seqSize, hv, hp]
-      · have : p = { p with clientMsgNo := [] } := by cases p; simp_all
-        rw [this]
-        simp [decSendack, sendackBody, sendackCoreFirst, getSeq, hv, getU64_enc, getU32_enc, getU8_enc0, *]
-    | cons c cs =>
-      have hlen : (c :: cs).length ≤ 32767 := by rw [← hp]; exact h5
-      refine ⟨encU64 p.messageID ++ (encU32 p.clientSeq ++ (encU64 p.messageSeq ++ (encU8 p.reasonCode ++ encStr (c :: cs)))), ?_, ?_, ?_⟩
-      · simp [encSendack, hseq, hp, wStr_ok, hlen]
-      · simp [sizeSendack, seqSize, hv, hp]
-      · have : p = { p with clientMsgNo := c :: cs } := by cases p; simp_all
-        rw [this]
-        simp [decSendack, sendackBody, sendackCoreFirst, getSeq, hv, getU64_enc, getU32_enc, getU8_enc,
-          getStr_enc0, hlen, *]
+  have hseq := wSeq_ok v mseq h3
+  have hget := fun r x => getSeq_enc v mseq r x h3
+  rw [hseq] at hget
+  have hget' := fun r => hget r _ rfl
+  have hget0 := hget [] _ rfl
+  have hsz : (if v ≤ legacyMessageSeqVersion then encU32 mseq else encU64 mseq).length = seqSize v := by
+    unfold seqSize; split <;> simp
+  generalize (if v ≤ legacyMessageSeqVersion then encU32 mseq else encU64 mseq) = sq at *
+  clear hget
+  simp only [List.append_nil] at hget0
+  cases no with
+  | nil =>
+    simp [encSendack, sizeSendack, decSendack, sendackBody, sendackCoreFirst, getU64_enc, getU32_enc,
+      getU8_enc0, *]
+    omega
+  | cons c cs =>
+    have hw := wStr_ok (c :: cs) h5
+    have hg := getStr_enc0 (c :: cs) h5
+    simp [encSendack, sizeSendack, decSendack, sendackBody, sendackCoreFirst, getU64_enc, getU32_enc,
+      getU8_enc, hw, hg, hseq, hget', hsz, h1, h2, h4]
+    omega
 
 theorem sendack_size (v : Nat) (p : Sendack) (b : Bytes) (h : encSendack v p = .ok b) :
     b.length = sizeSendack v p := by
